@@ -51,11 +51,11 @@ func workerMain(f *Family) {
 // isolator: parent side.
 type isolator struct {
 	deaths int
-	fam  string
-	cmd  *exec.Cmd
-	in   io.WriteCloser
-	out  *bufio.Reader
-	errb *tailBuffer
+	fam    string
+	cmd    *exec.Cmd
+	in     io.WriteCloser
+	out    *bufio.Reader
+	errb   *tailBuffer
 }
 
 type tailBuffer struct{ b []byte }
